@@ -1034,6 +1034,15 @@ class SCartGrid:
             return tuple(self.n)
         if attr == "discretization":
             return SArr(list(self.dx))
+        if attr == "typical_discretization":
+            # A-PDE: the mean of the spacings - ONE length, not the spacing of any particular axis
+            if not hasattr(self, "_h"):
+                self._h = run.fresh_real("typical_discretization")
+                tot = self.dx[0]
+                for d_ in self.dx[1:]:
+                    tot = tot + d_
+                run.define(self._h * len(self.dx) == tot, "A-PDE: typical_discretization is the mean spacing")
+            return self._h
         if attr == "periodic":
             return list(self.periodic)
         if attr == "transform":
